@@ -87,4 +87,26 @@ static inline sexp_luint_t verif_mul_uf(sexp_luint_t a, sexp_uint_t b) {
 #define luint_mul_uint(a, b) verif_mul_uf((sexp_luint_t)(a), (sexp_uint_t)(b))
 #endif
 
+/* Opt-in (-DVERIF_KINDFOLD): kind tests on registered heap objects (DESIGN 1.3, "shape facts").
+ * CBMC treats the address of an object as an opaque bit-vector, so `((sexp_uint_t)x & 3) == 0`
+ * does not fold for x = &object and every tag dispatch explores all its arms with garbage
+ * operands.  For an object the harness (or its allocator stub) registered, the tests return the
+ * constant a real, 8-byte aligned heap object gives; for every other value (fixnums, immediates,
+ * unregistered pointers) the repository's own expression is evaluated.  The alignment of the
+ * registered objects is the assumption (listed by each group that opts in). */
+#ifdef VERIF_KINDFOLD
+extern sexp verif_reg[]; extern int verif_nreg;
+#define VR(k) (x == verif_reg[k])
+static inline int verif_registered(sexp x) {   /* no loop: each comparison folds on its own for a definite pointer */
+  return x != 0 && (VR(0) || VR(1) || VR(2) || VR(3) || VR(4) || VR(5) || VR(6) || VR(7) || VR(8) || VR(9) || VR(10) || VR(11)
+                    || VR(12) || VR(13) || VR(14) || VR(15) || VR(16) || VR(17) || VR(18) || VR(19) || VR(20) || VR(21) || VR(22) || VR(23));
+}
+static inline int verif_pointerp(sexp x) { if (verif_registered(x)) return 1; return (((sexp_uint_t)(x) & SEXP_POINTER_MASK) == SEXP_POINTER_TAG); }
+static inline int verif_fixnump(sexp x) { if (verif_registered(x)) return 0; return (((sexp_uint_t)(x) & SEXP_FIXNUM_MASK) == SEXP_FIXNUM_TAG); }
+#undef sexp_pointerp
+#undef sexp_fixnump
+#define sexp_pointerp(x) verif_pointerp((sexp)(x))
+#define sexp_fixnump(x)  verif_fixnump((sexp)(x))
+#endif
+
 #endif
